@@ -1143,6 +1143,11 @@ class Interp:
                 self._field_inv(key, st.heap[key], v.cls, attr)
                 return st.heap[key]
             cls = v.cls
+            if attr == "__class__" and isinstance(cls, type):
+                # the object is an instance of exactly the class it is declared with (A2: no
+                # subclass instances at the functions under contract)
+                self.world.trusted_used.add("obj.__class__ is the declared class of the object (no subclass instances)")
+                return self.lift(cls)
             if isinstance(cls, type):
                 for k in cls.__mro__:
                     if attr in k.__dict__:
@@ -2759,7 +2764,16 @@ class Interp:
         raise Unsupported("with statement")
 
     def ex_Delete(self, node):
-        raise Unsupported("del statement")
+        for t in node.targets:
+            if isinstance(t, ast.Subscript):
+                obj = self.ev(t.value)
+                if getattr(obj, "kind", None) == "map":
+                    from . import maps
+                    k = maps.key_of(self, self.ev(t.slice))
+                    self.guard(maps.has(self, obj, k), KeyError, node, "SAFE-Key")
+                    maps.delete(self, obj, k)
+                    continue
+            raise Unsupported("del statement")
 
     def ex_FunctionDef(self, node):
         self.st.env[node.name] = VFunc(None, builtin="closure", name=node.name,
